@@ -7,7 +7,7 @@ use core::sync::atomic::AtomicU64;
 
 use log::warn;
 
-use crate::atomic::{Atom, Atomic};
+use crate::atomic::{Atom, Atomic, AtomicSlice};
 use crate::lower::HugeId;
 use crate::trees::TreeId;
 use crate::{BITFIELD_ROW, Error, HUGE_ORDER, Result};
@@ -244,19 +244,9 @@ impl Bitfield {
         let num_rows = 1 << (order - Self::ROW_BITS.ilog2() as usize);
 
         for (i, rows) in self.data.chunks(num_rows).enumerate() {
-            // Check that these rows are free
-            if rows.iter().all(|e| e.load() == 0) {
-                for (j, row) in rows.iter().enumerate() {
-                    if let Err(_) = row.compare_exchange(0, u64::MAX) {
-                        // Undo previous updates
-                        for k in (0..j).rev() {
-                            rows[k]
-                                .compare_exchange(u64::MAX, 0)
-                                .expect("Failed undo search");
-                        }
-                        break;
-                    }
-                }
+            // Check that these rows are free, then try to allocate all of them
+            if rows.iter().all(|e| e.load() == 0) && rows.compare_exchange_all(0, u64::MAX).is_ok()
+            {
                 return Ok(RowId(i * num_rows));
             }
         }
